@@ -241,6 +241,9 @@ class Metadata(CbMixin, ProgMixin):
         self.name = info["name"]
         self.meta_version = info.get("meta version", 1)
         self.pieces = info.get("pieces", bytes())
+        if isinstance(self.pieces, str):
+            # the decoder returns text when the hash bytes are valid UTF-8
+            self.pieces = self.pieces.encode("utf-8")
         if self.meta_version == 2:
             # a single file torrent is the file itself, not a directory
             partials = [] if "length" in info else [self.name]
@@ -330,6 +333,8 @@ class Metadata(CbMixin, ProgMixin):
                 full = Path(os.path.join(path, key))
                 length = val[""]["length"]
                 root = val[""].get("pieces root")
+                if isinstance(root, str):
+                    root = root.encode("utf-8")
                 self.files.append({
                     "path": path,
                     "full": full,
